@@ -128,10 +128,11 @@ type vfC01Val struct {
 	hasNull  bool
 	hasNest  bool // array directly inside an array
 	isLang   bool
+	emptyList bool
 }
 
 func vfC01Value() vfC01Val {
-	switch vfChoose("value-kind", 10) {
+	switch vfChoose("value-kind", 11) {
 	case 0:
 		return vfC01Val{v: vfIRI("iri"), canon: true}
 	case 1:
@@ -164,6 +165,9 @@ func vfC01Value() vfC01Val {
 		return vfC01Val{v: map[string]interface{}{"type": "VfUnknownType", "id": vfIRI("nested.id"), "vfFoo": []interface{}{1.0, "x"}}, canon: true}
 	case 8:
 		return vfC01Val{v: []interface{}{[]interface{}{vfIRI("iri")}, vfIRI("iri")}, hasNest: true}
+	case 9:
+		// the empty list
+		return vfC01Val{v: []interface{}{}, canon: true, emptyList: true}
 	}
 	// single-element list: written back as a scalar (not canonical)
 	return vfC01Val{v: []interface{}{vfIRI("iri")}}
@@ -318,24 +322,36 @@ func vfC01(typ, typVocab string, all, own []vfC01Prop) {
 func vfJSONNorm(v interface{}) interface{} {
 	switch x := v.(type) {
 	case map[string]interface{}:
+		if x == nil {
+			return nil // encoding/json writes a nil map as null
+		}
 		r := make(map[string]interface{}, len(x))
 		for k, e := range x {
 			r[k] = vfJSONNorm(e)
 		}
 		return r
 	case map[string]string:
+		if x == nil {
+			return nil
+		}
 		r := make(map[string]interface{}, len(x))
 		for k, e := range x {
 			r[k] = e
 		}
 		return r
 	case []interface{}:
+		if x == nil {
+			return nil // encoding/json writes a nil slice as null, an empty one as []
+		}
 		r := make([]interface{}, len(x))
 		for i, e := range x {
 			r[i] = vfJSONNorm(e)
 		}
 		return r
 	case []string:
+		if x == nil {
+			return nil
+		}
 		r := make([]interface{}, len(x))
 		for i, e := range x {
 			r[i] = e
